@@ -92,15 +92,15 @@ GROUPS = {
 
 GROUPS["world"] = dict(
     subst=dict(Bundles="B_World", InitOps="Init_World"),
-    mc_quick=C(NSys=1, NW=1, NER=1, NEnt=2, NVal=2, OpNames={"wadd", "wrem", "bc", "eadd", "erem", "mut", "eev", "setlocal"}, MaxOps=2, Budget=3,
-               MaxSteps=3, StepKinds={"ops"}),
+    mc_quick=C(NSys=1, NW=1, NER=1, NEnt=2, NVal=2, OpNames={"wadd", "wrem", "bc", "eadd", "erem", "mut", "eev", "setlocal", "rm"}, MaxOps=2, Budget=3,
+               MaxSteps=3, StepKinds={"ops", "poll"}),
     mc_thorough=C(NSys=1, NW=2, NER=1, NEnt=2, NVal=2, OpNames={"wadd", "wrem", "wrun", "bc", "eadd", "erem", "mut", "eev", "setlocal", "desp"},
                   MaxOps=2, Budget=4, MaxSteps=3, StepKinds={"ops", "gc"}),
-    gen=C(NSys=2, NW=2, NER=1, NEnt=2, NVal=2, OpNames={"wadd", "wrem", "wrun", "bc", "res", "eadd", "erem", "mut", "eev", "setlocal", "desp", "run", "ins"},
+    gen=C(NSys=2, NW=2, NER=1, NEnt=2, NVal=2, OpNames={"wadd", "wrem", "wrun", "bc", "res", "eadd", "erem", "mut", "eev", "setlocal", "desp", "run", "ins", "rm"},
           MaxOps=3, Budget=10, MaxSteps=4, StepKinds={"ops", "gc", "poll"}),
     rnd=dict(cfg=dict(kinds=["plain", "plain"], nonce=0, nent=2, nworld=2, neworld=1),
-             alphabet=["wadd", "wrem", "wrun", "bc", "res", "eadd", "erem", "mut", "eev", "setlocal", "desp", "run", "ins", "probe"],
-             trigs=["bc", "res", "anyev", "mut", "eev"], max_ops=3, budget=14, steps=4, ntypes=1, nvals=2, p_gcpoll=15,
+             alphabet=["wadd", "wrem", "wrun", "bc", "res", "eadd", "erem", "mut", "eev", "setlocal", "desp", "run", "ins", "rm", "probe"],
+             trigs=["bc", "res", "anyev", "mut", "eev", "ins"], max_ops=3, budget=14, steps=4, ntypes=1, nvals=2, p_gcpoll=15,
              init=[["ins", 1, 1, 1], ["ins", 2, 1, 1]]),
 )
 
@@ -194,7 +194,7 @@ ENUMS["tabdesp"] = dict(subst=dict(Bundles="B_Desp", InitOps="Init_TabDesp"),
                         consts=C(NSys=3, NOnce=1, NEnt=2, OpNames={"revoke", "desp", "once", "reg"}, Modes={"revokable"},
                                  MaxOps=3, BodyOps=0, Budget=3, MaxSteps=3, FinalStep="clear"))
 ENUMS["tabworld"] = dict(subst=dict(Bundles="B_World1", InitOps="Init_Ins"),
-                         consts=C(NSys=1, NW=1, NER=1, NEnt=1, NVal=2, OpNames={"eadd", "erem", "wadd", "wrem", "mut", "eev", "bc"},
+                         consts=C(NSys=1, NW=1, NER=1, NEnt=1, NVal=2, OpNames={"eadd", "erem", "wadd", "wrem", "mut", "eev", "bc", "rm"},
                                   MaxOps=3, BodyOps=0, Budget=3, MaxSteps=3, FinalStep="clear"))
 # every tree of plain commands and system events over two systems with up to five ops (bodies up to three): all shapes of
 # self- and mutual recursion with several deliveries pending for two busy systems at once
